@@ -3,7 +3,7 @@
    reset, word offsets as seen by the checker -- are in Props/C12 section "packet level",
    proved over Model/CdpRunning.v.) *)
 From Coq Require Import List NArith.
-From FP Require Import Model.Base Model.Payload Proofs.C12_proofs.
+From FP Require Import Model.Base Model.ItsFsm Model.Rdh Model.Payload Model.CdpRunning Proofs.C12_proofs Proofs.C12_packet.
 Import ListNotations.
 Open Scope N_scope.
 
@@ -37,6 +37,27 @@ Proof. exact c12_too_much. Qed.
 Theorem C12_padding_ok : forall p, (ff_run p <= 15)%nat -> exists s cs, preprocess p = Prep_ok s cs.
 Proof. exact c12_padding_ok. Qed.
 
+(* ---- packet level (do_payload_checks) ---- *)
+(* a payload ending in more than 15 bytes of 0xFF is reported once (un-coded message at the RDH
+   offset), no word of it is examined, and the protocol state is the initial one afterwards *)
+Theorem C12_packet_too_much_padding : forall c s r payload pos s1,
+  set_current_rdh s r pos = Ok s1 -> (15 < ff_run payload)%nat ->
+  do_payload_checks c s r payload pos = Ok (set_fsm s1 S_InitialIHW, [VErr (mk_err pos CODE_PAYLOAD None)]) /\
+  cs_fsm (set_fsm s1 S_InitialIHW) = S_InitialIHW.
+Proof. exact c12_packet_too_much. Qed.
+(* otherwise the checker sees exactly the words of the payload, once each and in order *)
+Theorem C12_packet_words : forall c s r payload pos s1 ws,
+  set_current_rdh s r pos = Ok s1 -> words_of payload = Some ws ->
+  do_payload_checks c s r payload pos = cdp_words c s1 ws [].
+Proof. exact c12_packet_words. Qed.
+Theorem C12_words_in_order : forall c ws1 s ws2 acc,
+  cdp_words c s (ws1 ++ ws2) acc =
+  match cdp_words c s ws1 acc with
+  | Ok (s1, acc1) => cdp_words c s1 ws2 acc1
+  | Panic p => Panic p
+  end.
+Proof. exact cdp_words_app. Qed.
+
 (* The unguarded statement ("each payload ... as its data format prescribes") is false of the
    code: the slot size is taken from payload bytes 10..15 (known findings F12). *)
 Theorem C12_refuted_fmt2 :
@@ -61,5 +82,8 @@ Print Assumptions C12_fmt0.
 Print Assumptions C12_chunk_at.
 Print Assumptions C12_too_much_padding.
 Print Assumptions C12_padding_ok.
+Print Assumptions C12_packet_too_much_padding.
+Print Assumptions C12_packet_words.
+Print Assumptions C12_words_in_order.
 Print Assumptions C12_refuted_fmt2.
 Print Assumptions C12_refuted_fmt0.
